@@ -106,6 +106,8 @@ def check_run(ctx, case, n, op, w, out, ood, need, record):
 
 def check_case(ctx, case, record=True):
     spec = case["spec"]
+    if record:
+        ctx.count(*["world:" + c for c in regcommon.spec_classes(spec)])
     w = world.World(spec, registry=True)
     w.init_sources()
     for n, op in enumerate(case["ops"]):
